@@ -212,6 +212,12 @@ with SqliteImpl.impl_store.impl_manager as impl:
             y = sqa.cast(y, sqa.Double)
         return x / y
 
+    @impl(ops.sub, Datetime(), Datetime())
+    @impl(ops.sub, Date(), Date())
+    def _sub_temporal(x, y):
+        # `-` on the ISO strings SQLite stores would subtract the leading years
+        raise NotSupportedError("SQLite has no type for durations")
+
     @impl(ops.dt_day_of_week)
     def _day_of_week(x):
         return (sqa.extract("dow", x) + 6) % sqa.literal_column("7") + 1
